@@ -1,4 +1,4 @@
-//@unit state_wait  props=C10  min_verified=2
+//@unit state_wait  props=C10,C09  min_verified=2
 // C10: the two polling loops that wait for an AL state, extracted WHOLE with their timeout scope made explicit (rule R18):
 // MainDevice::wait_for_state (broadcast read, expected counter = number of SubDevices) and SubDeviceRef::wait_for_state
 // (one device, used while a SubDevice is created).  The devices are arbitrary: a status read returns ANY AlControl value or fails.
@@ -39,6 +39,9 @@ pub assume_specification[ <SubDeviceState as PartialEq>::eq ](a: &SubDeviceState
 /// "a read with command `c`, accepted only with working counter `wkc` (None = not looked at), returned the AL status `st`"
 pub uninterp spec fn al_status_read(c: Reads, wkc: Option<u16>, st: AlControl) -> bool;
 
+/// "the datagram with read command `c` and `len` data bytes came back with working counter `wkc`" (every SubDevice that
+/// processes a broadcast read increments the counter once)
+pub uninterp spec fn counter_of(c: Reads, len: u16, wkc: u16) -> bool;
 pub struct MainDev { pub timeouts: Timeouts, pub n: u16 }
 
 impl WrappedRead {
@@ -55,6 +58,11 @@ impl WrappedRead {
     #[verifier::external_body]
     pub async fn receive_al(self, maindevice: &MainDev) -> (r: Result<AlControl, Error>)
         ensures r is Ok ==> al_status_read(self.command, self.wkc, r->Ok_0)
+    { unimplemented!() }
+    /// `receive_wkc::<u8>` (unit wrapped): the working counter of what came back, no expectation applied
+    #[verifier::external_body]
+    pub async fn receive_wkc_u8(self, maindevice: &MainDev) -> (r: Result<u16, Error>)
+        ensures r is Ok ==> counter_of(self.command, 1, r->Ok_0)
     { unimplemented!() }
     /// `receive::<AlStatusCode>` on the diagnostic path (result only logged)
     #[verifier::external_body]
@@ -80,6 +88,13 @@ impl MainDev {
     pub fn num_loaded(&self) -> (r: u16) ensures r == self.n { unimplemented!() }
     #[verifier::external_body]
     pub fn num_subdevices(&self) -> (r: usize) ensures r == self.n { unimplemented!() }
+
+/*@fn file=src/maindevice.rs impl="impl<'sto> MainDevice<'sto>" name=count_subdevices subst=".receive_wkc::<u8>(self)=>.receive_wkc_u8(self)" props=C09
+    ensures
+        // the number of SubDevices reported is the working counter of ONE broadcast read of one byte (register 0x0000): each
+        // SubDevice on the ring increments it exactly once
+        r is Ok ==> counter_of(Reads::Brd { address: 0, register: 0x0000 }, 1, r->Ok_0),
+@*/
 
 /*@fn file=src/maindevice.rs impl="impl<'sto> MainDevice<'sto>" name=wait_for_state subst="self.num_subdevices.load(Ordering::Relaxed)=>self.num_loaded()@@.receive::<AlControl>(self)=>.receive_al(self)@@.receive::<AlStatusCode>(self)=>.receive_code(self)" timeouts=1 props=C10 attr="#[verifier::loop_isolation(false)] #[verifier::allow_complex_invariants]" __brk0="Result<(), Error>"
     requires self.n <= 0xefff           // station addresses 0x1000 + i stay inside u16 (init stores at most the caller's capacity)
